@@ -155,6 +155,9 @@ func printResult(res *HarnessResult) {
 			}
 		}
 	}
+	for msg, n := range res.Unwinds {
+		fmt.Printf("   UNWIND x%d: %s\n", n, msg)
+	}
 	for msg, n := range res.EngineErrors {
 		fmt.Printf("   ENGINE-ERROR x%d: %s\n", n, msg)
 	}
